@@ -15,7 +15,7 @@ run "$WT/_mutants/${X}_demo.py" >/tmp/confirm_out1_$$ 2>&1; d1=$?
 echo "demo without change: exit $d0 | suite with change: exit $t ($(tail -1 /tmp/confirm_t_$$)) | demo with change: exit $d1"
 tail -3 /tmp/confirm_out1_$$
 if [ $d0 -eq 0 ] && [ $t -eq 0 ] && [ $d1 -ne 0 ]; then
-  D=/verif/seeded/$PID-$X; mkdir -p "$D"
+  D=/verif/seeded/$PID-$X; while [ -f "$D/patch.diff" ] && ! cmp -s "$D/patch.diff" "$WT/_mutants/$X.diff"; do D="${D}x"; done; mkdir -p "$D"
   cp "$WT/_mutants/$X.diff" "$D/patch.diff"; cp "$WT/_mutants/${X}_demo.py" "$D/demo.py"; cp "$WT/_mutants/$X.md" "$D/notes.md"
   [ -f "$D/meta.json" ] || cat > "$D/meta.json" <<EOM
 {
